@@ -25,6 +25,7 @@ fn main() {
         "probe" => probe::main(&args),
         "stages" => probe::stages(&args),
         "golden" => probe::golden(&args),
+        "hover" => probe::hover(&args),
         other => {
             eprintln!("unknown subcommand {}", other);
             std::process::exit(2);
